@@ -23,6 +23,8 @@ type PropConfig struct {
 	Sweep []string `json:"sweep"`
 	// bounded stand-ins: exhaustive executions of the real code up to a stated bound (never counted as proved)
 	Bounded []BoundedCheck `json:"bounded"`
+	// integer lemmas (SMT-LIB scripts that must be unsat) backing `assume at` clauses
+	MathLemmas []string `json:"mathlemmas"`
 }
 
 type BoundedCheck struct {
@@ -220,6 +222,16 @@ func cmdCheck(args []string) int {
 	os.MkdirAll(outDir, 0o755)
 	dischargeAll(vcs, outDir, timeout, 16)
 
+	mathOK := 0
+	var mathBad []string
+	for _, ml := range cfg.MathLemmas {
+		out, _ := exec.Command("z3", "-T:30", filepath.Join(verifRoot, "specs", "mathlemmas", ml)).CombinedOutput()
+		if strings.TrimSpace(strings.SplitN(string(out), "\n", 2)[0]) == "unsat" {
+			mathOK++
+		} else {
+			mathBad = append(mathBad, ml)
+		}
+	}
 	var bounded []boundedResult
 	for _, bc := range cfg.Bounded {
 		bounded = append(bounded, runBounded(*repo, bc, *tier, outDir))
@@ -392,6 +404,13 @@ func cmdCheck(args []string) int {
 			exit = 1
 		}
 	}
+	for _, ml := range mathBad {
+		violations++
+		path := filepath.Join(replayDir, "mathlemma."+ml+".json")
+		os.WriteFile(path, []byte(fmt.Sprintf("{\"property\": %q, \"obligation\": \"mathlemma:%s\", \"status\": \"integer lemma not proved\"}", prop, ml)), 0o644)
+		fmt.Printf("VIOLATION property=%s replay=%s no-failing-input-found\n", prop, path)
+		exit = 1
+	}
 	for _, l := range knownLines {
 		fmt.Println(l)
 	}
@@ -473,6 +492,7 @@ func cmdCheck(args []string) int {
 			"known_findings_printed":   knownLines,
 			"integer_mode":             "bit-vector (machine arithmetic, wrap-around)",
 			"vacuity_covers_inconclusive": coverIncon,
+			"integer_lemmas_proved":       mathOK,
 			"bounded_stand_ins":           bounded,
 			"bounded_note":                "bounded stand-ins execute the real code exhaustively up to the stated bound; they are NOT counted in obligations/discharged",
 		},
